@@ -3,7 +3,8 @@ import ast
 
 from . import pyx
 from .core import AnalysisError, src, dotted
-from .pysym import SymExec, show, subterms, is_method_call
+from . import logic
+from .pysym import SymExec, show, subterms, is_method_call, path_values, alternatives
 
 REL = pyx.REL
 MUTATORS = {'append', 'extend', 'insert', 'pop', 'remove', 'clear', 'sort', 'reverse', 'update',
@@ -338,6 +339,8 @@ def r_category_table(repo, rep, R):
                     bad.append('rebinding of %s at line %s' % (t.id, n.lineno))
     rep.check(not bad, R, w(run), 'run:table:no-other-writes', 'nothing else modifies the category list or its index',
               'category table is also modified by: %s' % bad)
+    _TABLE[0] = table
+    _ADDER[0] = add.name
     return {'table': table, 'index': index, 'adder': add.name, 'params': params}
 
 
@@ -364,7 +367,7 @@ def r_callbacks(repo, rep, R):
     for kind, fn in info.items():
         w = '%s:%s run.%s' % (REL, fn.lineno, fn.name)
         ids = [a.arg for a in fn.args.args]
-        paths = [(st, out) for st, out in SymExec(fn, unroll=1).run()]
+        paths = [(st, out) for st, out in SymExec(fn, unroll=1, no_inline=(_ADDER[0],)).run()]
         rets = [st.ret for st, out in paths if out == 'return']
         ok = len(paths) == 1 and len(rets) == 1 and rets[0] is not None and rets[0][0] == 'listcomp' and len(rets[0][2]) == 1
         detail = '%d paths, returning %s' % (len(paths), [show(r)[:100] if r else None for r in rets])
@@ -434,7 +437,7 @@ def r_sentence_loop(repo, rep, R, table_info):
     w = lambda n: '%s:%s run' % (REL, n.lineno)
     # iteration source: zip(doc, scoring_results) in order (possibly through list()/tqdm())
     init = {}
-    ex = SymExec(run, unroll=1)
+    ex = SymExec(run, unroll=1, no_inline=(_ADDER[0],))
     paths = ex.run()
     entered = [(st, out) for st, out in paths if any(e[0] == 'loop-enter' and e[-1] is loop for e in st.events)]
     skipped = [(st, out) for st, out in paths if any(e[0] == 'loop-skip' and e[-1] is loop for e in st.events)]
@@ -560,7 +563,7 @@ def failure_values(repo):
         raise AnalysisError('%s: sentence loop calling parse_sentence not found' % REL)
     loop = loops[0]
     out = []
-    for st, o in SymExec(run, unroll=1).run():
+    for st, o in SymExec(run, unroll=1, no_inline=(_ADDER[0],)).run():
         if o == 'raise' or not (st.ret and st.ret[0] == 'alloc'):
             continue
         acc = st.ret
@@ -599,7 +602,7 @@ def r_tree_factories(repo, rep, R):
         fn = tm.get('Tree.' + name)
         w = '%s:%s Tree.%s' % (tm.rel, fn.lineno, name)
         want = mk(None)
-        rets = [st.ret for st, o in SymExec(fn).run() if o == 'return']
+        vals = path_values(SymExec(fn).run())
 
         def norm(t):
             # keyword form Tree(cat=..., children=...) -> positional
@@ -609,13 +612,17 @@ def r_tree_factories(repo, rep, R):
                 pos = list(t[2]) + [kw[k] for k in order[len(t[2]):] if k in kw]
                 return ('call', N('Tree'), tuple(pos), ())
             return t
-        ok = bool(rets) and all(norm(r) in want for r in rets) and (name != 'make_terminal' or {norm(r) for r in rets} == set(want))
+        ok = bool(vals) and all(norm(r) in want for _, r in vals) and (name != 'make_terminal' or {norm(r) for _, r in vals} == set(want))
         rep.check(ok, R, w, 'Tree.%s:fresh' % name, 'Tree.%s returns a new Tree built from its own arguments' % name,
-                  'Tree.%s returns %s' % (name, [show(r)[:70] if r else None for r in rets]))
+                  'Tree.%s returns %s' % (name, [show(r)[:70] for _, r in vals]))
         if name == 'make_terminal':
-            conds = {show(c) for st, o in SymExec(fn).run() for c, pol, _ in st.conds}
-            rep.check(conds == {"isinstance(word, Token)"}, R, w, 'Tree.make_terminal:token', 'a Token argument is used as is, any other word is wrapped into Token(word=...)',
-                      'make_terminal branches on %s' % sorted(conds))
+            is_tok = logic.formula(('call', N('isinstance'), (N('word'), N('Token')), ()))
+            okc = bool(vals)
+            for conds, r in vals:
+                as_is = norm(r) == want[0]
+                okc = okc and (logic.implied(conds, is_tok) if as_is else logic.excluded(conds, is_tok))
+            rep.check(okc, R, w, 'Tree.make_terminal:token', 'a Token argument is used as is, any other word is wrapped into Token(word=...)',
+                      'make_terminal does not choose between the word itself and Token(word=word) by isinstance(word, Token)')
     init = tm.get('Tree.__init__')
     w = '%s:%s Tree.__init__' % (tm.rel, init.lineno)
     for st, o in SymExec(init).run():
@@ -635,7 +642,7 @@ def r_call_locals(repo, rep, R):
     mod, run = _run_fn(repo)
     w = '%s:%s run' % (REL, run.lineno)
     seen = False
-    for st, out in SymExec(run, unroll=1).run():
+    for st, out in SymExec(run, unroll=1, no_inline=(_ADDER[0],)).run():
         calls = [e[1] for e in st.events if e[0] == 'call' and e[1][1] == N('parse_sentence')]
         if not calls:
             continue
